@@ -66,8 +66,42 @@ def build(style, pre, mid, post, prefix="", trail=False, doubled=None):
     return prefix + s + (sep if trail and sep else "")
 
 
+def outside_span(style, pre, mid, post, prefix="", trail=False, doubled=None):
+    """(head, tail): the bytes of build(...) before the first and after the last character of the term's words"""
+    ws = pre + mid + post
+    parts = [case_word(w, style, i == 0) for i, w in enumerate(ws)]
+    sep = SEP.get(style, "")
+    s, start, end = prefix, None, None
+    for i, pt in enumerate(parts):
+        if i > 0:
+            s += sep * (2 if (doubled is not None and sep and doubled == i) else 1)
+        if i == len(pre):
+            start = len(s)
+        s += pt
+        if i == len(pre) + len(mid) - 1:
+            end = len(s)
+    s += sep if trail and sep else ""
+    return s[:start], s[end:]
+
+
+def only_span_changed(ident, got, head, tail, b):
+    """C07 as stated: everything outside the term's span is preserved byte for byte; inside, the replacement's letters"""
+    if not (got.startswith(head) and got.endswith(tail) and len(got) >= len(head) + len(tail)):
+        return False
+    inner = got[len(head):len(got) - len(tail)] if tail else got[len(head):]
+    letters = "".join(ch for ch in inner.lower() if ch.isalnum())
+    return letters in ("".join(b), "".join(b) + "s", "".join(b[:-1]) + b[-1] + "es")
+
+
 def make_case(g, a, b):
-    """-> (identifier, expected identifier after the rename, class)"""
+    """-> (identifier, expected identifier after the rename, class, head, tail)"""
+    ident, exp, cls, args = make_case0(g, a, b)
+    head, tail = outside_span(*args) if args else ("", "")
+    assert not args or (ident.startswith(head) and ident.endswith(tail)), (ident, head, tail)
+    return ident, exp, cls, head, tail
+
+
+def make_case0(g, a, b):
     r = g.r
     style = r.choice(FAMILY)
     avoid = set(a) | set(b)
@@ -94,16 +128,20 @@ def make_case(g, a, b):
             if has_window(pre + mid + post, a):
                 mid = [a[0] + "q"]
         ident = build(style, pre, mid, post, prefix, trail)
-        return ident, ident, "near_miss"
+        return ident, ident, "near_miss", None
     outside = [d for d in range(1, len(pre + a + post)) if d <= len(pre) or d >= len(pre) + len(a)]
     if kind < 0.2 and style in SEP and outside:
         # a doubled separator somewhere outside the term's span
         d = r.choice(outside)
         d2 = d if d <= len(pre) else d - len(a) + len(b)
-        return build(style, pre, a, post, prefix, trail, doubled=d), build(style, pre, b, post, prefix, trail, doubled=d2), "doubled_separator"
+        return (build(style, pre, a, post, prefix, trail, doubled=d), build(style, pre, b, post, prefix, trail, doubled=d2), "doubled_separator",
+                (style, pre, a, post, prefix, trail, d))
     if kind < 0.3 and a[-1] in REGULAR_PLURAL and b[-1] in REGULAR_PLURAL:
-        return build(style, pre, a[:-1] + [a[-1] + "s"], post, prefix, trail), build(style, pre, b[:-1] + [b[-1] + "s"], post, prefix, trail), "plural"
-    return build(style, pre, a, post, prefix, trail), build(style, pre, b, post, prefix, trail), "family_" + style
+        ap = a[:-1] + [a[-1] + "s"]
+        return (build(style, pre, ap, post, prefix, trail), build(style, pre, b[:-1] + [b[-1] + "s"], post, prefix, trail), "plural",
+                (style, pre, ap, post, prefix, trail, None))
+    return (build(style, pre, a, post, prefix, trail), build(style, pre, b, post, prefix, trail), "family_" + style,
+            (style, pre, a, post, prefix, trail, None))
 
 
 def run(R):
@@ -127,14 +165,16 @@ def run(R):
         a, b = g.term_pair()
         if r.random() < 0.25:
             a = a[:1] + g.words(1, 1, avoid=a + b) if r.random() < 0.5 else a
-        st_s, st_r = r.choice(["Snake", "Kebab", "Camel", "Pascal"]), r.choice(["Snake", "Kebab", "Camel", "Pascal"])
+        typed = ["Snake", "Kebab", "Camel", "Pascal", "ScreamingSnake", "Train", "ScreamingTrain", "Dot"]
+        st_s, st_r = r.choice(typed), r.choice(typed)
         search, replace = gen.render(a, st_s), gen.render(b, st_r)
         cases = [make_case(g, a, b) for _ in range(50)]
         lines = [f"let {c[0]} = {i};" for i, c in enumerate(cases)]
         want = [f"let {c[1]} = {i};" for i, c in enumerate(cases)]
         tree = [{"p": "src.rs", "k": "f", "c": ("\n".join(lines) + "\n").encode(), "m": 0o644}]
         tj = cli.tree_json(tree)
-        sr = H.ask({"op": "scan_tree", "tree": tj, "search": core.hx(search), "replace": core.hx(replace)})
+        sr = H.ask({"op": "scan_tree", "tree": tj, "search": core.hx(search), "replace": core.hx(replace),
+                    "options": {"styles": list(gen.DEFAULT_STYLES)}})   # what the CLI passes by default (never None)
         stats["files"] += 1
         if not sr.get("ok"):
             fails.append({"why": "scan failed or panicked: " + str(sr)[:200], "search": search, "replace": replace, "lines": lines[:5]})
@@ -147,32 +187,28 @@ def run(R):
             continue
         out = al.harness_tree_dict(ar["tree"])
         got = [v for k, v in out.items() if k.endswith("src.rs")][0][2].decode("utf-8", "replace").splitlines()
-        for (ident, exp_id, cls), l_in, l_want, l_got in zip(cases, lines, want, got):
+        for (ident, exp_id, cls, head, tail), l_in, l_want, l_got in zip(cases, lines, want, got):
             stats["identifiers"] += 1
             stats["by_class"][cls] = stats["by_class"].get(cls, 0) + 1
             R.case((search, replace, ident), nontrivial=True)
-            if l_got != l_want and any(ch.isdigit() for ch in ident):
-                # digit-bearing identifiers: the rendering of the replacement inside the span is not fixed by the property
-                # (Fast-Token-Blue-42 -> Fast-SlowWest-42); what must hold is that everything outside the span is preserved
-                # and the span holds the replacement's words
+            if l_got != l_want and cls not in ("near_miss", "doubled_separator"):
+                # The property fixes what lies OUTSIDE the term's span (byte for byte) and that the span is what was replaced;
+                # how the replacement is cased inside the span is C06's subject for standalone occurrences only
+                # (BlueNewGamma with blue.new -> BAR_SLOW_INDEX gives BARSLOWINDEXGamma; Fast-Token-Blue-42 gives Fast-SlowWest-42)
                 gi = l_got[4:].rsplit(" = ", 1)[0]
-                k = 0
-                while k < min(len(gi), len(ident)) and gi[k] == ident[k]:
-                    k += 1
-                e = 0
-                while e < min(len(gi), len(ident)) - k and gi[len(gi) - 1 - e] == ident[len(ident) - 1 - e]:
-                    e += 1
-                span_words = words_of(gi[k:len(gi) - e] if e else gi[k:])
-                tail_words = [w for w in b] + [b[-1] + "s"]
-                if cls != "near_miss" and span_words and all(w in tail_words or any(w in x or x in w for x in tail_words) for w in span_words) \
-                        and words_of(gi) == words_of(exp_id):
-                    stats["by_class"]["digit_style_relaxed"] = stats["by_class"].get("digit_style_relaxed", 0) + 1
+                if only_span_changed(ident, gi, head, tail, b):
+                    stats["by_class"]["span_rendering_differs"] = stats["by_class"].get("span_rendering_differs", 0) + 1
                     continue
             if l_got != l_want:
                 if cls == "doubled_separator":
                     # recorded finding: the identifier is re-joined from its tokens with one separator (and, its style no longer
                     # being recognised, the replacement may be glued in Pascal form): same word sequence, separators differ
-                    if words_of(l_got[4:].rsplit(" = ", 1)[0]) == words_of(exp_id):
+                    gi = l_got[4:].rsplit(" = ", 1)[0]
+                    pl = len(head) - len(head.lstrip("_")) if head else 0     # the _ / __ prefix is not a doubled separator
+                    pfx, h0 = head[:pl], head[pl:]
+                    sp = next((c for c in "_-." if c + c in h0 or c + c in tail), "_")
+                    if words_of(gi) == words_of(exp_id) or \
+                            only_span_changed(ident, gi, pfx + h0.replace(sp + sp, sp), tail.replace(sp + sp, sp), b):
                         R.known("doubled_separator_collapsed", f"{ident} -> {l_got[4:].split(' ')[0]} (expected {exp_id})")
                         continue
                 fails.append({"why": f"{cls}: '{ident}' became '{l_got}' instead of '{l_want}' (term {search} -> {replace})",
@@ -187,7 +223,7 @@ def run(R):
                               "hunk": {k: h.get(k) for k in ("content", "replace", "line", "variant")}, "search": search, "replace": replace})
         # model = implementation on the compound matcher itself
         if has_model:
-            for ident, exp_id, cls in cases[:20 if quick else 50]:
+            for ident, exp_id, cls, _h, _t in cases[:20 if quick else 50]:
                 real = H.ask({"op": "compound_variants", "identifier": core.hx(ident), "search": core.hx(search), "replace": core.hx(replace)})
                 m = M.ask("compound", ident.encode(), search.encode(), replace.encode(), [])
                 stats["model_cases"] += 1
